@@ -63,6 +63,11 @@ def extract(src_dir=None, feature="", crates=None):
             shutil.rmtree(tmp, ignore_errors=True)
             time.sleep(2)
     if r.returncode != 0:
+        try:
+            with open(os.path.join(WORK, "last-extract-failure.log"), "w") as fh:
+                fh.write("src=%s feature=%s\n%s\n%s" % (src_dir, feature, r.stdout[-3000:], r.stderr[-6000:]))
+        except OSError:
+            pass
         shutil.rmtree(tmp, ignore_errors=True)
         raise ExtractError("extraction failed (tree does not build?):\n" + r.stderr[-4000:])
     want = (crates or CRATES)[0]
